@@ -149,6 +149,8 @@ package jsonpath
 //@ smt (declare-fun PV (Val Val Val) Val)
 //@ smt (declare-fun cmpRel (Val Val Val) Bool)
 //@ smt (declare-fun deepEq (Val Val) Bool)
+//@ smt (declare-fun refEq (Val Val) Bool)
+//@ smt (declare-fun numOK (Str) Bool)
 //@ smt (declare-fun regexMatch (Int Str) Bool)
 //@ smt (declare-fun ffRes (Int Val) Val)
 //@ smt (declare-fun ffErr (Int Val) Val)
@@ -771,9 +773,10 @@ package jsonpath
 
 //@ extern (json.Number).Float64
 //@   ensures ret0 == numToF(n)
+//@   ensures (ret1 == nil) <==> numOK(n)
 //@   pure
 //@ extern reflect.DeepEqual
-//@   ensures ret == deepEq(x, y)
+//@   ensures ret == refEq(x, y)
 //@   pure
 //@ extern (*regexp.Regexp).MatchString
 //@   ensures ret == regexMatch(re, s)
@@ -925,17 +928,29 @@ package jsonpath
 // what is proved is that it terminates on finite acyclic values (ranking vdepth, assumed to decrease from a container to
 // its members) and cannot panic, for every dynamic type (C03, C20).
 //@ smt (declare-fun vdepth (Val) Int)
+// The MEANING of deep equality by value (C09: a relation of the two values, symmetric member by member; C10: numbers by
+// value at every depth): a convertible number equals a number of the same value in either representation; an object
+// equals an object with the same names whose members are equal; an array equals an array of the same length whose elements
+// are equal; anything else is reflect.DeepEqual (refEq).  deepEqualByValue is PROVED to compute it.
+//@ spec numEq(x float64, r any) bool = (isType(r, float64) && fpEq(x, asType(r, float64))) || (isType(r, json.Number) && numOK(asType(r, json.Number)) && fpEq(x, numToF(asType(r, json.Number))))
+//@ spec deepEqMap(l any, r any) bool = isType(r, map[string]interface{}) && len(mapOf(l)) == len(mapOf(r)) && (forall k Str {mapOf(l)[k]} {M_dom[mapOf(r)][k]} {M_dom[mapOf(l)][k]} :: has(mapOf(l), k) ==> has(mapOf(r), k) && deepEq(mapOf(l)[k], mapOf(r)[k]))
+//@ spec deepEqList(l any, r any) bool = isType(r, []interface{}) && len(listOf(l)) == len(listOf(r)) && (forall j {listOf(l)[j]} :: 0 <= j && j < len(listOf(l)) ==> deepEq(listOf(l)[j], listOf(r)[j]))
+//@ spec deepEqDef(l any, r any) bool = (isType(l, json.Number) && numOK(asType(l, json.Number))) ? numEq(numToF(asType(l, json.Number)), r) : (isType(l, float64) ? numEq(asType(l, float64), r) : (isType(l, map[string]interface{}) ? deepEqMap(l, r) : (isType(l, []interface{}) ? deepEqList(l, r) : refEq(l, r))))
+//@ axiom deepEqMeaning: forall l Val, r Val {deepEq(l, r)} :: deepEq(l, r) <==> deepEqDef(l, r)
 //@ func deepEqualByValue
 //@   props C03 C04 C05 C06 C10 C20 C09
 //@   unfold 0 <= vdepth(left) && (isType(left, map[string]interface{}) ==> (forall k Str {asType(left, map[string]interface{})[k]} :: 0 <= vdepth(asType(left, map[string]interface{})[k]) && vdepth(asType(left, map[string]interface{})[k]) < vdepth(left))) && (isType(left, []interface{}) ==> (forall j {asType(left, []interface{})[j]} :: 0 <= j && j < len(asType(left, []interface{})) ==> 0 <= vdepth(asType(left, []interface{})[j]) && vdepth(asType(left, []interface{})[j]) < vdepth(left)))
 //@   decreases vdepth(left)
-//@   assume ret == deepEq(left, right)
+//@   ensures meaning: ret == deepEq(left, right)
+//@   loop 1 invariant seen: 0 <= rangepos && rangepos <= len(mapOf(left)) && isType(right, map[string]interface{}) && len(mapOf(left)) == len(mapOf(right)) && (forall j {rangeKey(rangeiter, j)} :: 0 <= j && j < rangepos ==> has(mapOf(right), rangeKey(rangeiter, j)) && deepEq(mapOf(left)[rangeKey(rangeiter, j)], mapOf(right)[rangeKey(rangeiter, j)]))
+//@   loop 2 invariant seen: isType(right, []interface{}) && len(listOf(left)) == len(listOf(right)) && (forall j {listOf(left)[j]} :: 0 <= j && j <= rangeindex2 ==> deepEq(listOf(left)[j], listOf(right)[j]))
 // C09 / C10 (equality is symmetric and member-wise): a member of the left container is compared only with the member of the
 // right container that has the same name / index and exists
 //@   before deepEqualByValue#1 assert samename: has(asType(right, map[string]interface{}), key) && arg0 == asType(left, map[string]interface{})[key] && arg1 == asType(right, map[string]interface{})[key]
 //@   before deepEqualByValue#2 assert sameindex: 0 <= index && index < len(asType(right, []interface{})) && len(asType(left, []interface{})) == len(asType(right, []interface{})) && arg0 == asType(left, []interface{})[index] && arg1 == asType(right, []interface{})[index]
 //@ func equalsNumber
 //@   props C03 C04 C05 C06 C10 C20 C09
+//@   ensures meaning: ret == numEq(left, right)
 //@ func (*syntaxCompareGE).comparator
 //@   props C03 C04 C05 C06 C10 C20 C09
 //@   implements syntaxComparator.comparator
